@@ -232,6 +232,12 @@ def edge_texts():
         lab = ("L" + "abcdefghi_" * 13)[:n]
         out.append("#! mrasm\n%s: ; c\n%s:\n" % (lab, lab + "x"))
         out.append("#! mrasm\n%s:;c\n JMP %s ; comment ; with ; semicolons ;\n MOV ((%s)), ((%s));x\n" % (lab, lab, lab, lab))
+    # value lists of every length 1..40 (and a few longer), with and without a comment
+    for n in list(range(1, 41)) + [64, 100, 239]:
+        vals = ", ".join(str((i * 37 + n) % 256) for i in range(n))
+        out.append("#! mrasm\n.DB %s ; %d values\nSTOP\n" % (vals, n))
+        if n <= 60:
+            out.append("#! mrasm\n.DW %s\n" % ",".join("0x%X" % ((i * 4099 + n) % 65536) for i in range(n)))
     # comments made of semicolons and blanks in every arrangement up to length 5, on every kind of line
     import itertools
     for n in range(1, 6):
